@@ -127,11 +127,12 @@ class Pool:
         if kind == "scalar":
             return ["\"%s\"" % tok, "12345", "true", "null", "-0.5e3"][choice % 5]
         if kind == "trunc":
-            full = self.obj_line("cmd", choice, idn)
-            cut = [len(full) - 1, len(full) // 2, len(full) - 3, 1][choice % 4]
+            full = self.obj_line("cmd" if (choice // 8) % 2 == 0 else "oth", choice, idn)
+            a = full.find('"attr"')
+            cut = [len(full) - 1, len(full) // 2, len(full) - 3, 1, (a - 1) if a > 1 else len(full) // 3, len(full) - 2][choice % 6]
             return full[:cut]
         if kind == "trail":
-            full = self.obj_line("cmd", choice, idn)
+            full = self.obj_line("cmd" if (choice // 8) % 2 == 0 else "oth", choice, idn)
             return full + [" x%s" % tok, "{}", "}", ",1", " []"][choice % 5]
         if kind == "long":
             full = self.obj_line("cmd", choice, idn)
@@ -215,7 +216,7 @@ def inproc_stream(b, reqs, timeout=3600):
     return out
 
 
-def cli_channel_run(b, data, cfg, in_ch, out_ch, workdir, tag, extra_env=None, timeout=120):
+def cli_channel_run(b, data, cfg, in_ch, out_ch, workdir, tag, extra_env=None, timeout=120, prefill=None):
     """One real CLI run. in_ch: file | gz | stdin ; out_ch: stdout | file. Returns dict(rc, out (bytes), stderr, stdout)."""
     args = ["redact"]
     stdin_data = None
@@ -237,6 +238,9 @@ def cli_channel_run(b, data, cfg, in_ch, out_ch, workdir, tag, extra_env=None, t
     if out_ch == "file":
         outp = os.path.join(workdir, "out-%s.log" % tag)
         args += ["-o", outp]
+        if prefill is not None:
+            with open(outp, "wb") as f:      # an older, longer output already sits at the path: it must be replaced, not overwritten in place
+                f.write(prefill)
     p = common.run_cli(b, args, stdin_data=stdin_data, env=extra_env, timeout=timeout, cwd=workdir)
     if outp:
         try:
